@@ -68,6 +68,9 @@ func subscribesAtom(p *Prog, info *types.Info, params []string) func(ast.Expr) (
 		case *ast.BinaryExpr:
 			if x.Op == token.EQL || x.Op == token.NEQ {
 				l, r := name(x.X), p.src(x.Y)
+				if ls := p.src(x.X); ls == "0" || ls == "nil" { // constant on the left: the comparison is symmetric
+					l, r = name(x.Y), ls
+				}
 				if r == "0" || r == "nil" {
 					a := l + "==" + r
 					if x.Op == token.NEQ {
